@@ -107,6 +107,8 @@ struct Cfg {
     out: bool,
     perm: usize,
     dup: bool,
+    /// the -o target exists already and is longer than any export
+    stale: bool,
 }
 const EACS: [&str; 4] = ["", "ECU1", ":AP1", "ECU2:AP2:CT2,ECU1::CT1"];
 
@@ -114,7 +116,7 @@ fn cfg_json(c: &Cfg) -> Value {
     let ffn = ["", "dlf", "dlt-convert", "dlf with marker+event filters", "dlf with a payload text that starts with a blank"][c.ffile];
     let stn = ["-a", "-x", "-s", ""][c.style];
     json!({"family": "options", "b": c.b, "e": c.e, "lcs": c.lcs, "eac": EACS[c.eac], "eac_i": c.eac, "filter_file": ffn, "ffile": c.ffile,
-        "sort": c.sort, "style": stn, "style_i": c.style, "o": c.out, "file_perm": c.perm, "dup_file_arg": c.dup})
+        "sort": c.sort, "style": stn, "style_i": c.style, "o": c.out, "file_perm": c.perm, "dup_file_arg": c.dup, "o_target_exists": c.stale})
 }
 fn cfg_from_json(v: &Value) -> Cfg {
     Cfg {
@@ -128,6 +130,7 @@ fn cfg_from_json(v: &Value) -> Cfg {
         out: v["o"].as_bool().unwrap(),
         perm: v["file_perm"].as_u64().unwrap() as usize,
         dup: v["dup_file_arg"].as_bool().unwrap_or(false),
+        stale: v["o_target_exists"].as_bool().unwrap_or(false),
     }
 }
 
@@ -317,6 +320,16 @@ fn run_cfg(w: &World, c: &Cfg, tag: u64) -> Vec<(String, String, String)> {
     let outp = format!("{}/out-{}.dlt", w.dir, tag);
     if c.out {
         cmd.arg("-o").arg(&outp);
+        if c.stale {
+            // all input files twice: valid messages, longer than any export
+            let mut stale = vec![];
+            for _ in 0..2 {
+                for f in &w.files {
+                    stale.extend_from_slice(&std::fs::read(f).unwrap_or_default());
+                }
+            }
+            std::fs::write(&outp, stale).expect("prefill -o target");
+        }
     }
     let perm = &perms4()[c.perm];
     for i in perm {
@@ -450,7 +463,7 @@ fn configs(tier: Tier) -> Vec<Cfg> {
                         for &sort in &sorts {
                             for &(style, out) in &styles_out {
                                 for &perm in &perms {
-                                    v.push(Cfg { b: *b, e: *e, lcs: lcs.clone(), eac, ffile, sort, style, out, perm, dup: false });
+                                    v.push(Cfg { b: *b, e: *e, lcs: lcs.clone(), eac, ffile, sort, style, out, perm, dup: false, stale: false });
                                 }
                             }
                         }
@@ -463,7 +476,7 @@ fn configs(tier: Tier) -> Vec<Cfg> {
     for &eac in &eacs {
         for &sort in &sorts {
             for (style, out) in [(0usize, false), (3, true)] {
-                v.push(Cfg { b: None, e: None, lcs: None, eac, ffile: 4, sort, style, out, perm: 0, dup: false });
+                v.push(Cfg { b: None, e: None, lcs: None, eac, ffile: 4, sort, style, out, perm: 0, dup: false, stale: false });
             }
         }
     }
@@ -471,10 +484,13 @@ fn configs(tier: Tier) -> Vec<Cfg> {
     for &eac in &eacs {
         for &sort in &sorts {
             for perm in [0usize, 7, 12, 18, 23] {
-                v.push(Cfg { b: None, e: None, lcs: None, eac, ffile: 0, sort, style: 0, out: true, perm, dup: true });
+                v.push(Cfg { b: None, e: None, lcs: None, eac, ffile: 0, sort, style: 0, out: true, perm, dup: true, stale: false });
             }
         }
     }
+    // the -o target exists already (a second export to the same path): every selecting option, no filter files
+    let stale: Vec<Cfg> = v.iter().filter(|c| c.out && c.ffile == 0 && c.eac == 0 && c.perm == 0 && !c.dup).map(|c| Cfg { stale: true, ..c.clone() }).collect();
+    v.extend(stale);
     v
 }
 
@@ -483,11 +499,11 @@ impl Prop for C14 {
         Meta {
             id: "C14",
             level: "exploration",
-            rule: "full product of adlt convert options against the binary built from the working tree: -b {-,0,3} x -e {-,5,100} x --lcs {-,{1},{2},{1,3}} x --eac {-,ECU1,:AP1,'ECU2:AP2:CT2,ECU1::CT1'} x -f {-, DLF file (positive APID + negative CTID), dlt-convert list, DLF file with an additional enabled marker and event filter} x --sort x style/-o {-a,-x,-s with and without -o, -o alone} x every permutation of four generated input files (ECU1 with two boots and garbage between messages, ECU2, a continuation file of ECU1, a file carrying both ECUs interleaved in time) + the first file named twice (quick: a 2-3 valued sub-product). Oracle computed in the harness from the generated messages: merged index order = global reception order, lifecycle ids = library detector on the merged stream renumbered as a fresh process counts, filters by their stated meaning (--eac parsed independently); printed indices = expected selection, each once, ascending when unsorted, ascii lines show the message; the -o file re-reads (library iterator, nothing skipped) to exactly the selected messages; identical for every file-argument order. Non-trivial = any selecting option set.".into(),
+            rule: "full product of adlt convert options against the binary built from the working tree: -b {-,0,3} x -e {-,5,100} x --lcs {-,{1},{2},{1,3}} x --eac {-,ECU1,:AP1,'ECU2:AP2:CT2,ECU1::CT1'} x -f {-, DLF file (positive APID + negative CTID), dlt-convert list, DLF file with an additional enabled marker and event filter} x --sort x style/-o {-a,-x,-s with and without -o, -o alone} x every permutation of four generated input files (ECU1 with two boots and garbage between messages, ECU2, a continuation file of ECU1, a file carrying both ECUs interleaved in time) + the first file named twice + every -o combination without filter options once more onto a target path that holds a longer, older export (quick: a 2-3 valued sub-product). Oracle computed in the harness from the generated messages: merged index order = global reception order, lifecycle ids = library detector on the merged stream renumbered as a fresh process counts, filters by their stated meaning (--eac parsed independently); printed indices = expected selection, each once, ascending when unsorted, ascii lines show the message; the -o file re-reads (library iterator, nothing skipped) to exactly the selected messages; identical for every file-argument order. Non-trivial = any selecting option set.".into(),
             assumptions: vec!["one generated input set (20 messages, 4 files); lifecycle ids of the CLI are assumed to count from 1 in creation order in a fresh process".into()],
             budget_s: (150, 1500),
             workers: 1,
-            required_landmarks: vec!["window", "lcs", "eac", "ffile_dlf", "ffile_conv", "ffile_dlf_marker", "ffile_dlf_blank_payload", "sort", "o_file", "perm", "empty_selection", "nonempty_selection", "export_twice", "large_input"],
+            required_landmarks: vec!["window", "lcs", "eac", "ffile_dlf", "ffile_conv", "ffile_dlf_marker", "ffile_dlf_blank_payload", "sort", "o_file", "o_target_exists", "perm", "empty_selection", "nonempty_selection", "export_twice", "large_input"],
         }
     }
     fn prepare(&self, _t: Tier) -> Result<(), String> {
@@ -537,7 +553,7 @@ impl Prop for C14 {
         for (_, c, v) in res {
             ctx.mine();
             let exp = w.expected(&c);
-            for (flag, name) in [(c.b.is_some() || c.e.is_some(), "window"), (c.lcs.is_some(), "lcs"), (c.eac > 0, "eac"), (c.ffile == 1, "ffile_dlf"), (c.ffile == 2, "ffile_conv"), (c.ffile == 3, "ffile_dlf_marker"), (c.ffile == 4, "ffile_dlf_blank_payload"), (c.sort, "sort"), (c.out, "o_file"), (c.perm > 0, "perm"), (exp.is_empty(), "empty_selection"), (!exp.is_empty(), "nonempty_selection")] {
+            for (flag, name) in [(c.b.is_some() || c.e.is_some(), "window"), (c.lcs.is_some(), "lcs"), (c.eac > 0, "eac"), (c.ffile == 1, "ffile_dlf"), (c.ffile == 2, "ffile_conv"), (c.ffile == 3, "ffile_dlf_marker"), (c.ffile == 4, "ffile_dlf_blank_payload"), (c.sort, "sort"), (c.out, "o_file"), (c.stale, "o_target_exists"), (c.perm > 0, "perm"), (exp.is_empty(), "empty_selection"), (!exp.is_empty(), "nonempty_selection")] {
                 if flag {
                     ctx.landmark(name);
                 }
